@@ -141,6 +141,7 @@ fn wr(len: usize) -> String {
 
 fn main() {
     silence_panics();
+    install_logger(); // every log line of the library is evaluated and formatted, as under RUST_LOG=trace
     run_cases(|f, emit| match f[0] {
         // wr_range <from> <to>: write a packet with an n-byte body with the real writer, read it back
         "wr_range" => {
